@@ -1328,7 +1328,10 @@ def documents(features=ALL_FEATURES, exclude=(), max_items=14, classes=("article
             elif "counters" in F and r == 4 and ctrnames:
                 c = draw(st.sampled_from(ctrnames))
                 op = draw(st.sampled_from(["set", "add", "step", "set"]))
-                body.append({"k": "ctr", "op": op, "c": c, "v": draw(st.integers(0, 7)), "sep": 1})
+                # (mostly small values; sometimes one that puts the next step on a round number)
+                v = draw(st.integers(0, 7)) if draw(st.integers(0, 4)) else \
+                    draw(st.sampled_from([9, 10, 19, 20, 29, 99, 100, 109]))
+                body.append({"k": "ctr", "op": op, "c": c, "v": v, "sep": 1})
             elif "appendix" in F and r == 5 and draw(st.integers(0, 2)) == 0 and \
                     not any(b["k"] == "appendix" for b in body):
                 body.append({"k": "appendix", "sep": 1})
@@ -1353,6 +1356,7 @@ def documents(features=ALL_FEATURES, exclude=(), max_items=14, classes=("article
 
 
 BIBKEYS = ["ka", "kb", "kc", "kd"]
+LABEL_STYLES = ["l%d", "sec:l%d", "l %d", "l%d", "l-%d", "l.%d", "my l%d x"]
 
 
 def _iter_blocks(items):
@@ -1379,7 +1383,10 @@ def finalize(doc, exclude=()):
 
     def fresh():
         counter[0] += 1
-        return "l%d" % (counter[0] - 1)
+        # label keys are arbitrary text: blanks and punctuation are legal and common ("sec:intro",
+        # "main result"); the style is a function of the slot number (no random choice here)
+        i = counter[0] - 1
+        return LABEL_STYLES[i % len(LABEL_STYLES)] % i
 
     def name(n):
         if n["k"] == "label" and n["n"] == "?":
